@@ -138,6 +138,13 @@ class Engine(ExprMixin, StmtMixin, CallMixin):
             return True  # keep the path: over-approximation is sound for proving
         return r == z3.sat
 
+    def unopt(self, st, v):
+        """strip the Optional wrapper when the path condition excludes None"""
+        while isinstance(v, Opt) and not self.feasible(st, v.none):
+            st.assume(z3.Not(v.none))
+            v = v.val
+        return v
+
     # ------------------------------------------------------------------ attribute access on pseudo values
     def getattr_(self, o, name, st):
         if isinstance(o, tuple) and o and o[0] == "typeof":
